@@ -1,10 +1,48 @@
-"""C04 - see lib/props/_shm.py (measured configuration, schedules, engine/model runs, oracles)."""
-from props import _shm
+"""C04 - daemon death and restart never harm attached clients.
+Theorems: Properties/C04.v.  Tie to the code: lib/props/_shm.py (crash at every access, restart
+through the real ShmWriter::new, oracles) + the generated Current_C04.v: clauses (a) and (b) rest on
+C02_RA_window / C03_monotone_RA_window / C04_restarted_publications_seen, whose side condition
+`safe_cfg current_cfg = true` must hold for the configuration measured from the running code."""
+import common as c
+from props import _shm, C02, C03
+
+BODY = ("From CB Require Import SeqlockInv GenCyc SeqlockRA SeqlockMono SeqlockFresh.\nFrom CB.Properties Require Import C02 C03 C04.\n"
+        "Theorem current_cfg_safe : safe_cfg current_cfg = true.\nProof. vm_compute. reflexivity. Qed.\n"
+        "Theorem current_retries_positive : (0 < c_retries current_cfg)%N.\nProof. vm_compute. reflexivity. Qed.\n"
+        "Definition C04_a_complete_records_for_the_running_code := fun ts m o => C02_RA_window current_cfg ts m o current_cfg_safe.\n"
+        "Definition C04_a_publication_order_for_the_running_code := fun ts m o => C03_monotone_RA_window current_cfg ts m o current_cfg_safe.\n"
+        "Definition C04_b_for_the_running_code := fun ts m o j r q e => C04_restarted_publications_seen current_cfg ts m o j r q e current_cfg_safe current_retries_positive.\n"
+        "Definition C04_c_for_the_running_code := fun ts m o => C04_never_emptied_under_clients current_cfg ts m o current_cfg_safe.\n"
+        "Print Assumptions C04_a_complete_records_for_the_running_code.\nPrint Assumptions C04_b_for_the_running_code.\n")
 
 
 def run(res, proofs_ok, proofs_why):
-    _shm.run_property("C04", res, proofs_ok, proofs_why)
+    cfg, binary = _shm.run_property("C04", res, proofs_ok, proofs_why)
+    if cfg is None:
+        return
+    ok, log = _shm.current_obligation(cfg, "C04", BODY)
+    res.oblige("Current_C04.v: safe_cfg current_cfg = true for the configuration measured from the running code; clauses (a), (b), (c) instantiated with it", ok)
+    res.extra["current_cfg_coq"] = _shm.coq_cfg(cfg)
+    if not ok:
+        toks, out = C02.ra_search(cfg, res)
+        why = "a call of an attached client returns a mixture of two publications"
+        if not toks:
+            toks, out, why = C03.ra_search(cfg, res)
+        if toks:
+            res.violation({"property": "C04", "kind": "history",
+                           "case": {"schedule": _shm.tok_str(toks), "model_execution": out,
+                                    "why": ["clause (a) under the release/acquire model, with the orderings and fences measured from the running code: " + why]},
+                           "obligation": "safe_cfg current_cfg = true fails: " + log[-600:],
+                           "measured_cfg": cfg, "how_to_replay": "./check C03 --replay <this file>"})
+        else:
+            res.violation({"property": "C04", "kind": "obligation",
+                           "obligation": "Current_C04.v: the side condition of the clause (a)/(b) theorems does not hold for the measured configuration: " + log[-800:],
+                           "measured_cfg": cfg}, found_input=False)
 
 
 def replay(res, path):
+    import json
+    r = json.load(open(path))
+    if "model_execution" in (r.get("case") or {}):
+        return C03.replay(res, path)
     return _shm.replay_property("C04", res, path)
